@@ -6,11 +6,11 @@ structure St where
   udb : TxDb := []
   u : Utxo := Utxo.empty 3
   idb : IdxDb := []
-  i : Idx := ⟨[], 5, 10000⟩
+  i : Idx := ⟨[], 5, 10000, false⟩
   bdb : BlockDb := []
   b : BlockCache := ⟨[], []⟩
   s : SendCache := SendCache.empty
-  x : UIdx := ⟨[], [], ⟨[], 5, 10000⟩⟩
+  x : UIdx := ⟨[], [], ⟨[], 5, 10000, false⟩⟩
   xblocks : List (Nat × List BTx) := []
 
 def csv (s : String) : List String := if s = "-" then [] else s.splitOn ","
@@ -73,9 +73,9 @@ def step (st : St) : List String → St × String
           | none => "err notfound"
         ({ st with u := u }, rs ++ " " ++ fmtU u)
       | none => (st, "bad-op")
-  | ["i.reset", vol] => match nat? vol with
-      | some v => ({ st with idb := [], i := ⟨[], v, 10000⟩ }, "ok")
-      | none => (st, "bad-op")
+  | ["i.reset", vol, mf] => match nat? vol, nat? mf with
+      | some v, some mf => ({ st with idb := [], i := ⟨[], v, 10000, mf == 1⟩ }, "ok")
+      | _, _ => (st, "bad-op")
   | ["i.connect", height, txs, spent] =>
       -- txs: id:payload:cacheable,...
       let parse (s : String) : Option (Nat × Nat × Bool) := match s.splitOn ":" with
@@ -115,9 +115,9 @@ def step (st : St) : List String → St × String
           | some (h, tx) => s!"ok {h} {tx}"
           | none => "err notfound")
       | none => (st, "bad-op")
-  | ["x.reset", vol] => match nat? vol with
-      | some v => ({ st with x := ⟨[], [], ⟨[], v, 10000⟩⟩, xblocks := [] }, "ok")
-      | none => (st, "bad-op")
+  | ["x.reset", vol, mf] => match nat? vol, nat? mf with
+      | some v, some mf => ({ st with x := ⟨[], [], ⟨[], v, 10000, mf == 1⟩⟩, xblocks := [] }, "ok")
+      | _, _ => (st, "bad-op")
   | ["x.connect", height, txs] => match nat? height, (txs.splitOn ";").mapM parseBTx with
       | some h, some txs =>
         let x := st.x.connectBlock [] h txs
@@ -144,6 +144,14 @@ def step (st : St) : List String → St × String
   | ["b.get", id] => match nat? id with
       | some id =>
         let (r, b) := getBlock st.bdb st.b id
+        let rs := match r with
+          | some c => s!"ok {id} {c}"
+          | none => "err notfound"
+        ({ st with b := b }, rs ++ " " ++ fmtB b)
+      | none => (st, "bad-op")
+  | ["b.get2", id] => match nat? id with   -- two concurrent misses for one hash
+      | some id =>
+        let (r, b) := getBlockRace st.bdb st.b id
         let rs := match r with
           | some c => s!"ok {id} {c}"
           | none => "err notfound"
